@@ -14,7 +14,7 @@ KINDS = ["k0", "k1", "k2"]
 # ------------------------------------------------------------------------------
 BASE_WEIGHTS = {
     "add": 30, "move": 12, "remove": 10, "remove_children": 2, "clear": 1, "del": 3,
-    "sort": 4, "set_data": 8, "meta": 3, "filter": 3,
+    "sort": 4, "set_data": 8, "meta": 3, "filter": 3, "copy": 3, "copy_to": 3,
 }
 
 PROFILES = {
@@ -23,8 +23,8 @@ PROFILES = {
     "C02": {"set_data": 3, "remove": 2, "filter": 2, "add": 1.2},
     "C03": {"add": 1.5, "move": 2, "set_data": 3, "remove": 2},
     "C04": {"meta": 2, "sort": 2},
-    "C07": {"add": 1.5},
-    "C08": {"filter": 8},
+    "C07": {"add": 1.5, "copy": 4, "copy_to": 5},
+    "C08": {"filter": 8, "copy": 6},
     "C13": {},
 }
 
@@ -487,15 +487,75 @@ def gen_filter(rng, cfg, w: World, opid, invalid, steer):
     return op
 
 
+def gen_copy(rng, cfg, w: World, opid, invalid, steer):
+    si = rng.choice(live_slots(w))
+    op = {"id": opid, "k": "copy"}
+    if rng.random() < 0.5:
+        start = w.slots[si].model.root
+    else:
+        start = pick_node(rng, w, si) or w.slots[si].model.root
+    op["src"] = ref_of(si, start)
+    cands = [j for j in range(1, len(w.slots)) if j != si]
+    if len(w.slots) < 3:
+        cands.append(len(w.slots))
+    if not cands:
+        return None
+    op["into"] = rng.choice(cands)
+    r = rng.random()
+    if r < cfg.get("p_copy_filtered", 0.4):
+        op["api"] = rng.choice(["filtered", "copy"])
+        if invalid and rng.random() < 0.2 and op["api"] == "filtered":
+            op["no_predicate"] = True
+            return op
+        op["verdicts"] = gen_verdicts(rng, start, avoid=cfg.get("avoid_verdicts", ()))
+        op["default"] = "F"
+    if not start.is_root() and op.get("api") != "filtered" and rng.random() < 0.5:
+        op["add_self"] = rng.random() < 0.5
+    return op
+
+
+def gen_copy_to(rng, cfg, w: World, opid, invalid, steer):
+    si = rng.choice(live_slots(w))
+    ti = rng.choice(live_slots(w))
+    op = {"id": opid, "k": "copy_to"}
+    if rng.random() < 0.25:
+        op["src"] = f"T{si}"
+    else:
+        nm = pick_node(rng, w, si)
+        if nm is None:
+            return None
+        op["src"] = nm.uid
+        r = rng.random()
+        if r < 0.3:
+            op["add_self"] = False
+        elif r < 0.4:
+            op["add_self"] = True
+    t = pick_parent(rng, w, ti)
+    op["target"] = ref_of(ti, t)
+    if op.get("add_self") is not False and not op["src"].startswith("T"):
+        b = pick_before(rng, t)
+        if b != "absent":
+            op["before"] = b
+    elif invalid and rng.random() < 0.3:
+        op["before"] = True
+    r = rng.random()
+    if r < 0.4:
+        op["deep"] = True
+    elif r < 0.5:
+        op["deep"] = False
+    return op
+
+
 GENERATORS = {
     "add": gen_add, "move": gen_move, "remove": gen_remove,
     "remove_children": gen_remove_children, "clear": gen_clear, "del": gen_del,
     "sort": gen_sort, "set_data": gen_set_data, "meta": gen_meta, "filter": gen_filter,
+    "copy": gen_copy, "copy_to": gen_copy_to,
 }
 
 FAULT_CBS = {
     "add": ["hook"], "set_data": ["hook"], "del": ["hook"], "sort": ["key"],
-    "filter": ["pred"],
+    "filter": ["pred"], "copy": ["pred"],
 }
 
 
